@@ -8,8 +8,9 @@ Timer arithmetic of server sessions (property C02, timing clauses).  Times are n
                                  RECORD: now - Unix(udpLastPacketTime) >= ReadTimeout            → timed out
                                  PLAY:   now - lastRequestTime >= IdleTimeout
                                          && now - Unix(udpLastPacketTime) >= IdleTimeout         → timed out
-  server_session_media.go      every UDP packet: udpLastPacketTime = now.Unix()   (whole seconds)
-  server_session.go            every request: lastRequestTime = now; PLAY/RECORD: udpLastPacketTime = now.Unix()
+  server_session_media.go      every UDP packet: udpLastPacketTime = now.UnixNano()
+  server_session.go            every request: lastRequestTime = now; PLAY/RECORD: udpLastPacketTime = now.UnixNano()
+                               (whole seconds before fix c10dc6a: a live publisher was timed out with ReadTimeout = 1 s)
 
 Core Lean only.
 -/
@@ -33,7 +34,7 @@ structure Cfg where
   read : Nat
   deriving Repr
 
-/-- What the server remembers. `lastPkt` is already truncated to whole seconds. -/
+/-- What the server remembers. -/
 structure State where
   lastReq : Nat
   lastPkt : Nat
@@ -50,7 +51,7 @@ inductive Ev
   deriving Repr, DecidableEq
 
 /-- state right after PLAY / RECORD succeeded at time `t0` -/
-def start (t0 : Nat) : State := { lastReq := t0, lastPkt := t0 / sec * sec }
+def start (t0 : Nat) : State := { lastReq := t0, lastPkt := t0 }
 
 /-- the test of the `udpCheckStreamTimer` case -/
 def expires (cfg : Cfg) (recording : Bool) (s : State) (now : Nat) : Bool :=
@@ -59,7 +60,7 @@ def expires (cfg : Cfg) (recording : Bool) (s : State) (now : Nat) : Bool :=
 
 def step (cfg : Cfg) (recording : Bool) (s : State) : Ev → State
   | .request now => if s.expired then s else { s with lastReq := now }
-  | .packet now => if s.expired then s else { s with lastPkt := now / sec * sec }
+  | .packet now => if s.expired then s else { s with lastPkt := now }
   | .tick now => if s.expired then s else { s with expired := expires cfg recording s now }
 
 def run (cfg : Cfg) (recording : Bool) : State → List Ev → State
